@@ -376,6 +376,7 @@ fn draw_req(r: &mut Rng, id: u32, first: bool) -> ReqSpec {
             resp_delay_ms: *r.pick(&[0u64, 1, 3]),
             fail: false,
             upgrade: false,
+            redirect: None,
         },
     }
 }
